@@ -30,8 +30,8 @@ STUB = ["wall clock (virtual, integer microseconds)", "uuid source", "file syste
 ASSUMPTIONS = ["backwards clock jumps are not injected (the property speaks of elapsed time)",
                "with a ticking clock the +-1us boundary classes are widened to +-16us and verdicts inside the band are withheld",
                "real-time cross-check is left to the repository's own three sleep-based tests"]
-FAULT_KINDS = ["clock_gap_at_boundary", "clock_tick_between_reads", "expiry"]
-PROBES = ["save_state_between_accesses", "created_via_start_instances", "expired_exactly_at_boundary", "alive_one_us_before_boundary", "restored_from_adapter",
+FAULT_KINDS = ["preemption", "clock_gap_at_boundary", "clock_tick_between_reads", "expiry"]
+PROBES = ["access_concurrent_with_sweep", "due_instance_accessed_during_a_sweep", "slow_release_of_expired_instances", "save_state_between_accesses", "created_via_start_instances", "expired_exactly_at_boundary", "alive_one_us_before_boundary", "restored_from_adapter",
           "refused_after_expiry", "self_access_after_expiry_before_sweep", "swept_by_other_access",
           "swept_by_create", "swept_by_metrics", "keepalive_restore"]
 EXHAUSTIVE = {"quick": False, "thorough": False}
@@ -66,6 +66,8 @@ def generate(spec):
     if rng.random() < 0.25:
         ticks = [rng.choice([0, 0, 1]) for _ in range(rng.choice([3, 5, 7]))]
     band = 16 if ticks else 1
+    # releasing an expired instance may take time (a sweep that destroys something lasts): 0 or 0.7 virtual seconds
+    cost = rng.choice([0, 0, 0, 700000])
     adapter = rng.choice([None, "plain", "plain", "compressed"])
     events = []
     n_inst = rng.choice([1, 2, 2, 3, 4])
@@ -77,7 +79,7 @@ def generate(spec):
 
     def new_inst():
         to = gen_timeout(rng)
-        while timeout_us(to) < (64 if ticks else 1):
+        while timeout_us(to) < (5 * 10**6 if cost else 64 if ticks else 1):      # a request must stay much shorter than any time-out
             to = gen_timeout(rng)
         insts.append(timeout_us(to))
         last.append(now)
@@ -90,14 +92,15 @@ def generate(spec):
         # aim the gap at one instance's boundary
         j = rng.randrange(len(insts))
         T = insts[j]
-        target = rng.choice([T - band, T, T + band, 2 * T, T // 2, 0, band, T + 3 * band, T - 3 * band, 3 * T + 7])
+        target = rng.choice([T - band, T, T + band, 2 * T, T // 2, 0, band, T + 3 * band, T - 3 * band, 3 * T + 7]
+                            + ([T - cost // 2, T - cost + band, T - band] if cost else []))
         gap = last[j] + target - now
         if gap < 0 or rng.random() < 0.15:
             gap = rng.choice([0, 1, 1000, 10**6, 60 * 10**6, 3600 * 10**6]) if not ticks else rng.choice([0, 1000, 10**6, 60 * 10**6])
         now += gap
         if r < 0.12 and len(insts) < n_inst + 1:
             to = gen_timeout(rng)
-            while timeout_us(to) < (64 if ticks else 1):
+            while timeout_us(to) < (5 * 10**6 if cost else 64 if ticks else 1):      # a request must stay much shorter than any time-out
                 to = gen_timeout(rng)
             insts.append(timeout_us(to))
             last.append(now)
@@ -112,9 +115,14 @@ def generate(spec):
         else:
             k = j if rng.random() < 0.6 else rng.randrange(len(insts))
             events.append({"gap_us": gap, "op": "access", "inst": k, "kind": rng.choice(ACCESS_KINDS)})
+            if events[-1]["kind"] in ("keep_alive", "session_results", "flat_session_results") and rng.random() < 0.2:
+                # the access arrives TOGETHER with a request that sweeps (two scheduled tasks, line-level interleaving
+                # inside the server): an access that is acknowledged restarts the timer whatever the sweep was doing
+                events[-1]["with_trigger"] = {"op": rng.choice(["metrics", "full_metrics"]),
+                                              "sched": {"kind": "random", "seed": rng.randrange(2**32), "p": rng.choice([0.05, 0.2, 0.5])}}
             last[k] = now
     return {"property": PROPERTY,
-            "config": {"adapter": adapter, "clock_ticks": ticks,
+            "config": {"adapter": adapter, "clock_ticks": ticks, "destroy_cost_us": cost,
                        "model": {"template": "T1", "start": 1.0, "stop": 400.0, "dt": 1.0,
                                  "managers": {"smA": {"base": {}}}}},
             "events": events}
@@ -135,7 +143,11 @@ def execute(case):
     expect_destroyed = {}   # serial -> 1 for every bptk whose instance was timed out
     expired_any = [False]
 
-    with ServerWorld({"model": cfg["model"], "adapter": adapter, "clock_ticks": ticks, "threads": "serial"}, log, res) as w:
+    conc = any(e.get("with_trigger") for e in case["events"])
+    if cfg.get("destroy_cost_us"):
+        res.probe("slow_release_of_expired_instances")
+    with ServerWorld({"model": cfg["model"], "adapter": adapter, "clock_ticks": ticks, "threads": "auto" if conc else "serial",
+                      "destroy_cost_us": cfg.get("destroy_cost_us", 0)}, log, res) as w:
         w.boot()
         clk = w.clock
 
@@ -264,7 +276,30 @@ def execute(case):
                 if kind in STEPPING and not i.session and not (i.state == "gone" and i.ext):
                     kind = "session_results"
                 path = "/%s/%s" % (i.id, {"stream": "stream-steps"}.get(kind, kind.replace("_", "-")))
-                if kind == "run_step":
+                wt = ev.get("with_trigger") if kind in ("keep_alive", "session_results", "flat_session_results") else None
+                if wt:
+                    from sim.threads import Scheduler, make_policy, run_tasks
+                    box = {}
+
+                    def c_access():
+                        box["a0"] = clk.now_us
+                        box["r"] = w.get(path) if kind != "keep_alive" else w.post(path)
+                        box["a1"] = clk.now_us
+
+                    def c_trigger():
+                        box["t"] = w.get("/" + wt["op"].replace("_", "-"), auth=False)
+                    sched = Scheduler(make_policy(wt["sched"]), ("server/bptkServer.py",), log=None)
+                    with sched:
+                        rr_ = run_tasks(sched, [c_trigger, c_access])
+                    for x_ in rr_:
+                        if x_ and x_[0] == "exc":
+                            raise x_[1]
+                    r = box["r"]
+                    res.probe("access_concurrent_with_sweep")
+                    if sched.switches > 2:
+                        res.fault("preemption", sched.switches)
+                    log.add("pair", n, sched.interleaving_hash())
+                elif kind == "run_step":
                     r = w.post(path, {"settings": {}})
                 elif kind == "run_steps":
                     r = w.post(path, {"settings": {}, "numberSteps": 2})
@@ -280,10 +315,34 @@ def execute(case):
                 else:
                     r = w.post(path)
                 t1 = clk.now_us
+                pair_t0, pair_t1 = t0, t1
+                if wt:
+                    t0, t1 = box["a0"], box["a1"]       # the access itself happened inside [a0, a1], within the pair's [t0, t1]
                 served = r.status == 200
                 refused = (not served) and isinstance(r.body, dict) and "valid instance" in str(r.body.get("error", ""))
                 certainly_young = (t1 - i.lo) < i.T
                 certainly_old = (t0 - i.hi) >= i.T
+                if wt and not certainly_young and i.state != "gone":
+                    # the instance was due (or in the band) while an access and a sweep were in flight together: the sequential
+                    # reading leaves the outcome open, the model follows what the server did
+                    res.probe("due_instance_accessed_during_a_sweep")
+                    if peek_present(i) and served:
+                        old_serial = i.serial
+                        resolve_serial(i)
+                        if i.serial != old_serial:
+                            # swept and then restored from the adapter within the pair: the old bptk was released
+                            expect_destroyed[old_serial] = 1
+                            expired_any[0] = True
+                            i.session = True
+                            res.probe("restored_from_adapter")
+                        i.lo, i.hi = t0, t1
+                    else:
+                        i.state = "gone"
+                        expired_any[0] = True
+                        expect_destroyed[i.serial] = 1
+                    age(pair_t0, pair_t1, skip=i, why="metrics")
+                    log.add("return", n, r.status)
+                    continue
                 detail = {"event": n, "kind": kind, "status": r.status, "inst": i.id,
                           "elapsed_us": t0 - i.hi, "timeout_us": i.T, "body": str(r.text)[:120]}
                 if i.state == "gone":
@@ -337,6 +396,8 @@ def execute(case):
                     # the handler returns before touching the instance table)
                     if served:
                         age(t0, t1, skip=i, why="other_access")
+                if wt:
+                    age(pair_t0, pair_t1, skip=i, why="metrics")      # the concurrent sweep happened whatever became of the access
                 log.add("return", n, r.status)
         # settle: one last trigger, then the destroy() ledger
         t0 = clk.now_us
@@ -344,6 +405,8 @@ def execute(case):
         age(t0, clk.now_us, why="metrics")
         for serial, want in sorted(((k, v) for k, v in expect_destroyed.items() if k is not None)):
             got = w.destroys.get(serial, 0)
+            if serial is not None and conc and got >= want:
+                continue        # two sweeps in flight together may both release the same expired instance; released is released
             if serial is not None and got != want:
                 res.violate("C17.B-resources-released", {"bptk_serial": serial, "destroy_calls": got, "expected": want})
         for i in insts:
@@ -367,6 +430,15 @@ def shrink(case):
         c = copy.deepcopy(case)
         c["config"]["clock_ticks"] = None
         yield c
+    if case["config"].get("destroy_cost_us"):
+        c = copy.deepcopy(case)
+        c["config"]["destroy_cost_us"] = 0
+        yield c
+    for n, ev in enumerate(case["events"]):
+        if ev.get("with_trigger"):
+            c = copy.deepcopy(case)
+            c["events"][n].pop("with_trigger")
+            yield c
     for n, ev in enumerate(case["events"]):
         if ev["op"] == "access" and ev["kind"] not in ("session_results", "keep_alive"):
             c = copy.deepcopy(case)
